@@ -23,5 +23,5 @@ if [ $ok -eq 1 ]; then
   tail -3 /tmp/confirm_$sid.with | cut -c1-300 > $d/demo_output_with_change.txt
   echo "CONFIRMED -> $d"
 else
-  echo "NOT CONFIRMED"; rm -rf /verif/seeded/$sid
+  echo "NOT CONFIRMED"
 fi
